@@ -231,6 +231,7 @@ class BodyGen:
         E = self.expr
         ind = lambda lines: ["    " + l for l in lines]  # noqa: E731
         kinds = ["expr"] * 5 + ["assign"] * 3 + ["multiassign", "augassign", "annassign", "annonly", "delete", "delname",
+                 "del_container", "shadow_global_del", "use_global",
                  "return", "assert", "raise", "pass", "clsassign", "lamassign", "ntassign", "retcls"]
         if d < 2:
             kinds += ["for", "while", "if", "with", "try", "match", "def", "class", "asyncfor", "asyncwith", "forelse"]
@@ -255,6 +256,16 @@ class BodyGen:
         if k == "delname":
             v = r.choice(self.params + self.locals) if (self.params + self.locals) else "a"
             return [f"del {v}", f"{v}.{self.fresh('afterdel')}"]
+        if k == "del_container":
+            x, y = self.fresh("loc"), self.fresh("loc")
+            self.locals.extend([x, y])
+            return [f"{x} = {self.atom()}", f"{y} = {self.atom()}",
+                    r.choice([f"del ({x}, {y})", f"del [{x}]", f"del {y}, ({x},)"]), f"{x}.{self.fresh('afterdel')}"]
+        if k == "shadow_global_del":
+            g = r.choice(["glob", "other_glob", "max", "len"])
+            return [f"{g} = {self.atom()}", f"del {g}"]
+        if k == "use_global":
+            return [r.choice([f"glob.{self.fresh('a')}", f"max({E()}, {E()})", f"len(other_glob)", f"other_glob[{self.atom()}]"])]
         if k == "return":
             return [r.choice([f"return {E()}", "return", f"return {E()}, {E()}"])]
         if k == "retcls":
